@@ -53,6 +53,9 @@ class Ser:
         if isinstance(e, ast.Dict):
             return "(EDict %s)" % lst("(%s, %s)" % (opt(self.expr(k)) if k is not None else "None", self.expr(v)) for k, v in zip(e.keys, e.values))
         if isinstance(e, ast.IfExp): return "(EIfExp %s %s %s)" % (self.expr(e.test), self.expr(e.body), self.expr(e.orelse))
+        if isinstance(e, ast.ListComp) and len(e.generators) == 1 and not e.generators[0].is_async:
+            g = e.generators[0]
+            return "(EListComp %s %s %s %s)" % (self.expr(e.elt), self.expr(g.target), self.expr(g.iter), lst(map(self.expr, g.ifs)))
         return "(EUnsupported %s)" % q(type(e).__name__)
     def stmts(self, ss): return lst(x for x in (self.stmt(s) for s in ss) if x)
     def stmt(self, s):
